@@ -590,6 +590,8 @@ def gen_native_op(rnd):
         lambda: ["set", rnd.choice(["er2", "ers", "era"]), rnd.choice([["fl", rnd.randrange(4)], ["fl", rnd.randrange(4)],
                                                                        ["b", 0], ["n", 7], ["s", 0], _P(rnd)])],
         lambda: ["validate", rnd.choice(["er2", "ers", "era"]), ["fl", rnd.randrange(4)]],
+        lambda: ["ctdefault", rnd.choice(["dfl", "dfll", "a", "tup", "i", "lst"])], lambda: ["ctdefault", "dfl"],
+        lambda: ["get", rnd.choice(["dfl", "dfll"])], lambda: ["del", rnd.choice(["dfl", "dfll"])],
         lambda: ["basetrait", "cyc"], lambda: ["basetrait", "cyc"],
         lambda: ["vtrait", "cyc", _P(rnd)], lambda: ["basetrait", rnd.choice(["d_pfx", "same", "a", "tup"])],
         lambda: ["vkeep", "tup", _tuple2(rnd, mode)], lambda: ["vkeep", "tup", _tuple2(rnd, mode)],
@@ -620,6 +622,8 @@ def native_corpus():
         ["set", "dct", ["d", [[P0, P1], [["b", 0], ["s", 1]]]]], ["setitem", "dct", P2, 0], ["clear", "dct"],
         ["set", "st", ["set", [P0, P1]]], ["add", "st", P2], ["set", "ro", P0], ["set", "ro", P1],
         ["set", "inst", ["leaf", P0]], ["set", "inst", P0], ["del", "tup"], ["del", "tup4"], ["gc"],
+        ["ctdefault", "dfl"], ["ctdefault", "dfl"], ["ctdefault", "dfll"], ["get", "dfl"], ["ctdefault", "dfl"], ["del", "dfl"],
+        ["get", "dfll"], ["ctdefault", "dfll"], ["ctdefault", "tup"],
         ["set", "i", ["idx", 0]], ["set", "i", ["idx", 1]], ["set", "eis", ["idx", 0]], ["validate", "i", ["idx", 1]],
         ["set", "tint", ["t", [["idx", 0], P1]]], ["del", "i"], ["set", "i", ["n", 3]],
         ["set", "er2", ["fl", 0]], ["set", "er2", ["fl", 1]], ["set", "er2", ["fl", 2]], ["set", "er2", ["fl", 3]],
@@ -720,7 +724,7 @@ def native_stream(ctx, cases, sanitize=False, tag="native"):
         rep_case = dict(ops=cases[i]["ops"][:step + 1])
         ctx.fail(key, "native path: clause %s fails at step %d op %r (outcome %s): (object, refcount delta, held before, "
                  "held after) = %r; objects 0-3 instances, 4-5 run-time strings, 6-7 big ints, 8-9 delegate prefix strings, "
-                 "10-11 Map keys, 12-13 Map values, 14-15 Enum members, 16-19 fresh floats, 20.. the class-level CTrait of `cyc`"
+                 "10-11 Map keys, 12-13 Map values, 14-15 Enum members, 16-19 fresh floats, 20.. the class-level CTrait of `cyc`, then the default object of `dfl` and the item of the default list of `dfll`"
                  % (CLAUSE.get(clause, clause), step, op, obs[i][step]["out"], bad),
                  dict(kind="native", case=rep_case, step=step, clause=clause, sanitized=bool(sanitize),
                       impl_obs=obs[i][:step + 1]))
